@@ -583,6 +583,8 @@ class Translator:
             ct = self.ty(n)
             src = self.tm.tname(i[-1]['type'])
             if ck == 'IntegralToFloating':
+                if src == '_Bool':
+                    return '((%s) ? (%s)1 : (%s)0)' % (x, ct, ct)      # CBMC has no bool -> real cast of a symbolic value
                 return 'INT_TO_REAL(%s, %s)' % (src.replace(' ', '_'), x)
             if ck == 'FloatingToIntegral':
                 return 'REAL_TO_INT(%s, %s)' % (ct.replace(' ', '_'), x)
@@ -2654,9 +2656,11 @@ class Translator:
         rt = d['type']['qualType']
         rts = rt[:rt.find('(')].strip()
         f.ret = self.tm.c(rts)
+        if rts.endswith('&') and self.ret_by_value_decl(d, rts):
+            f.ret = f.ret.rstrip(' *').rstrip()      # `const T&` results are returned by value, as for extracted functions
         if d['kind'] == 'CXXConstructorDecl':
             f.ret = 'void'
-        if d['kind'] in ('CXXMethodDecl', 'CXXConstructorDecl') and d.get('storageClass') != 'static':
+        if d['kind'] in ('CXXMethodDecl', 'CXXConstructorDecl', 'CXXConversionDecl') and d.get('storageClass') != 'static':
             st = self.method_self_type(d)
             if st is None:
                 raise ExtractError('cannot find the class of extern method ' + f.qual)
